@@ -80,6 +80,11 @@ def refusals(ctx, rule='C15-R1'):
         elif tag(cond) == 'mcall' and cond[2] == 'any' and tag(cond[1]) == 'mcall' and cond[1][2] == 'duplicated' \
                 and not cond[1][3] and not cond[1][4] and _is_data(cond[1][1], fx):
             k = 'duplicated rows'
+        elif tag(cond) == 'call' and cond[1] == ('g', 'numpy.any') and len(cond[2]) == 1 and tag(cond[2][0]) == 'mcall' \
+                and cond[2][0][2] == 'duplicated' and not cond[2][0][3] and not cond[2][0][4] and _is_data(cond[2][0][1], fx):
+            k = 'duplicated rows'
+        elif _nonempty_of_duplicates(cond, fx):
+            k = 'duplicated rows'           # len(data[data.duplicated()]) > 0 says the same
         elif tag(cond) == 'cmp' and cond[1] in ('lt', 'ne') and cond[2] == C(0) and tag(cond[3]) == 'call' \
                 and cond[3][1] == ('g', 'builtins.len'):
             mg = cond[3][2][0]
@@ -104,6 +109,17 @@ def refusals(ctx, rule='C15-R1'):
         cat = kwarg(e.call, 'category', 1)
         ctx.check(cat == WARN, rule, Q, e.node, e.loc(), f'warning issued with category {T.show(cat)}: not AmpycloudWarning',
                   instance=f'warning category at {e.loc().split(":")[-1]}')
+
+
+def _nonempty_of_duplicates(cond, fx) -> bool:
+    """0 < len(data[data.duplicated()]) (any spelling of "not empty") for the screened copy."""
+    from sa.rules.common import nonempty_arg
+    sel = nonempty_arg(cond)
+    if sel is None:
+        return False
+    sel = T.peel(sel)
+    return tag(sel) == 'mask' and _is_data(sel[1], fx) and tag(sel[2]) == 'mcall' and sel[2][2] == 'duplicated' and \
+        not sel[2][3] and not sel[2][4] and _is_data(sel[2][1], fx)
 
 
 def _plain_rows(t, fx):
